@@ -403,3 +403,67 @@ Example example_schedule :
      [CoApplicable [(QAround, ["integer"]); (QPrimary, ["t"])]; CoCall ([Ev 2 [false]; Ev 1 [false]; EvEnd 2], RVal 1); CoNone;
       CoApplicable [(QBefore, ["fixnum"]); (QPrimary, ["t"])]]]%N%string.
 Proof. vm_compute. repeat split; repeat constructor. Qed.
+
+(* ---------- the sequential reference of the concurrent theorem against the specification ---------- *)
+From C10 Require Import Spec Proofs.
+
+Definition wf_cop (ct : ctable) (n : nat) (o : cop) : Prop :=
+  match o with
+  | CDef q k b => wf_op n (OpDef q k b)
+  | CCall cs v => List.length cs = n /\ Forall (wf_cls ct) cs
+  | _ => True
+  end.
+
+Lemma map_update_fst k c (ms : list (key * combo)) : map fst (map_update k c ms) = map fst ms.
+Proof. unfold map_update. apply map_fst_update. Qed.
+
+Lemma remove_raw_inv ct n a q k : 1 <= n -> Inv ct n a -> Inv ct n (remove_raw a q k).
+Proof.
+  intros Hn (Hd & Hr & Ht & Hc). unfold remove_raw. destruct (alookup k (methods a)) as [c|] eqn:E; [|exact (conj Hd (conj Hr (conj Ht Hc)))].
+  assert (Ht' : wf_tbl n (if combo_is_empty (set_qual c q None) then adelete k (methods a)
+                          else map_update k (set_qual c q None) (methods a))).
+  { destruct (combo_is_empty _); [apply adelete_wf, Ht|]. destruct Ht as [H1 H2]. split; rewrite map_update_fst; assumption. }
+  repeat split; cbn [dflt reqcnt methods cache]; try apply Ht'.
+  - rewrite Hr. apply update_default_none; [exact Hn|apply Ht'].
+  - exact Hr.
+  - intros ck snap H. cbn in H. discriminate.
+Qed.
+
+Lemma cstep_inv ct n a o : 1 <= n -> wf_cop ct n o -> Inv ct n a ->
+  Inv ct n (fst (cstep ct a o)) /\
+  match o with
+  | CCall cs v => snd (cstep ct a o) = CoCall (pure_call ct (methods a) cs v) /\ methods (fst (cstep ct a o)) = methods a
+  | _ => True
+  end.
+Proof.
+  intros Hn Hw HI. destruct o as [q k b|q k|cs v|q k|cs]; cbn [cstep fst snd].
+  - split; [|exact I]. apply (step_refines ct n a (OpDef q k b) Hn Hw I HI).
+  - split; [apply remove_raw_inv; assumption|exact I].
+  - destruct Hw as [Hl Hc]. destruct (step_refines ct n a (OpCall cs v) Hn Hl Hc HI) as (H1 & H2 & H3).
+    cbn [step] in H1, H2, H3. destruct (call ct a cs v) as [a' r]. cbn [fst snd] in *.
+    split; [exact H1|]. split; [injection H3 as ->; reflexivity|exact H2].
+  - split; [exact HI|exact I].
+  - split; [exact HI|exact I].
+Qed.
+
+(* the answers of the sequential reference with every call replaced by the cache-free semantics
+   on the method table of that moment *)
+Fixpoint cpure (ct : ctable) (a : aux) (ops : list cop) : list cout :=
+  match ops with
+  | [] => []
+  | o :: ops' => (match o with CCall cs v => CoCall (pure_call ct (methods a) cs v) | _ => snd (cstep ct a o) end)
+                 :: cpure ct (fst (cstep ct a o)) ops'
+  end.
+Theorem crun_cache_transparent ct n : 1 <= n -> forall ops a, Forall (wf_cop ct n) ops -> Inv ct n a ->
+  snd (crun ct a ops) = cpure ct a ops.
+Proof.
+  intros Hn. induction ops as [|o ops IH]; intros a Hw HI; [reflexivity|]. inversion Hw as [|? ? Ho Hw']; subst.
+  destruct (cstep_inv ct n a o Hn Ho HI) as [HI' Hc]. cbn [crun cpure].
+  destruct (cstep ct a o) as [a1 r] eqn:Es. cbn [fst snd] in *. specialize (IH a1 Hw' HI').
+  destruct (crun ct a1 ops) as [a2 rs]. cbn [snd] in *. rewrite IH. f_equal.
+  destruct o; try reflexivity. destruct Hc as [-> _]. reflexivity.
+Qed.
+(* ... and inside the guard that is what the specification demands of the call *)
+Theorem ccall_eq_spec ct n a cs v : wf_tbl n (methods a) -> Forall (wf_cls ct) cs -> guard ct (methods a) cs ->
+  pure_call ct (methods a) cs v = spec_call ct (methods a) cs v.
+Proof. apply pure_call_eq_spec. Qed.
